@@ -13,26 +13,40 @@ open Juniper.Gen.Tree Juniper.Model.BTree Juniper.Proofs.Tree
 
 variable {K V : Type}
 
-/-- "once it reports exhaustion it keeps doing so", far-bound half in the model: after the `While` wrapper has
-seen one key beyond the far bound it never calls the cursor again and answers `end` on whatever tree. -/
-theorem while_cutoff_sticky (cmp : K → K → Int) (t : Tree K V) (it : Iter K) (op : CmpOp) (key : K)
-    (hs : it.stop = some (op, key)) (hd : it.done = true) :
-    iterNext cmp t it = (it, none) := by
+/-- "once it reports exhaustion it keeps doing so", far-bound half in the model: once the in-range predicate has
+failed (`iter.done`), `Next` answers `end` on whatever tree, without looking at the tree or the cursor again (and
+without evaluating `lost()`: no panic). The guard is the regenerated `if iter.done` of both `Next` methods. -/
+theorem cutoff_sticky (cmp : K → K → Int) (t : Tree K V) (it : Iter K) (hd : it.done = true) :
+    iterNext cmp t it = (it, none) ∧ iterNextPanics t it = false := by
+  obtain ⟨g1, _, _, _, _⟩ := iter_guards
+  unfold iterNext iterNextPanics
+  simp [hd, g1]
+
+/-- the cut-off happens exactly when the predicate fails on the key the cursor is parked on (after the re-seek of a
+lost cursor) — **decided on the key alone, before the value slot is read** — and it is sticky (`iter.done = true`
+is in the source); an in-range key is yielded with the value read *before* the cursor moves on. -/
+theorem cutoff_exact (cmp : K → K → Int) (t : Tree K V) (it : Iter K) (op : CmpOp) (key : K) (p : Pos K)
+    (hs : it.stop = some (op, key)) (hd : it.done = false) (hp : (iterReseek cmp t it.fwd it.c).pos = some p) :
+    (evalOp op (cmp p.k key) = false →
+      iterNext cmp t it = ({ it with c := iterReseek cmp t it.fwd it.c, done := true }, none)) ∧
+    (evalOp op (cmp p.k key) = true → (iterNext cmp t it).2 = some (p.k, valueAt t p)) := by
+  obtain ⟨g1, g2, g3, _, g5⟩ := iter_guards
   unfold iterNext
-  simp [hs, hd, whileChecksDone]
+  constructor <;> intro hk <;> simp [hs, hd, hp, hk, g1, g2, g3]
 
-/-- the cut-off is set exactly when the predicate fails (`iter.done = true` is present in the source); a lost
-forward iterator re-seeks `>=`, a lost backward iterator `<=`, a merged-away node is marked (`right.n = 0`),
-and `Put`/`Delete` bump the generation when the structure changes. -/
-theorem iterator_facts : whileSticky = true ∧ whileStops false = true ∧ whileStops true = false ∧
-    whileChecksDone true = true ∧ whileChecksDone false = false ∧ iterReseeks = true ∧ iterReadsThenSteps = true ∧
-    cursorLostReseeks = true ∧ mergeZeroesRight = true ∧ putBumpsGen = true ∧ deleteBumpsGen = true ∧
-    seekSetsGen = true ∧ seekFirstSetsGen = true ∧ seekLastSetsGen = true := by decide
+/-- **"It never panics", `Next` on a cursor that is off the edge.** `Next` begins with `iter.c.lost()`. On an
+exhausted iterator, or one created on an empty range, `curr == nil`; the regenerated `lost()` expression, evaluated
+as the Go code evaluates it, must then not consult `c.curr.n` / `c.curr.keys[c.i]` — it does not (the conjunct
+`c.curr != nil &&` guards them), for any pair of generations, i.e. after any number of structural changes. Deleting
+the guard from `btree.go` makes this theorem, `iter_total` and `iter_refines_resume` fail. -/
+theorem next_off_edge_never_derefs_nil (t : Tree K V) (it : Iter K) : iterNextPanics t it = false := by
+  simp [iterNextPanics, lost_guards_nil]
 
-/-- A cursor parked in a node that has left the tree (merged away: `right.n = 0`; collapsed root: `n = 0`) and whose
-generation is stale considers itself lost — so it re-seeks by key instead of reading the dead node. -/
+/-- A cursor parked in a node that has left the tree (merged away: `right.n = 0` — the regenerated presence fact
+`mergeZeroesRight`, through `retiredN` —; collapsed root: `n = 0`) and whose generation is stale considers itself
+lost — so it re-seeks by key instead of reading the dead node. -/
 theorem retired_nodes_are_lost (cmp : K → K → Int) (t : Tree K V) (c : Cursor K) (p : Pos K) (hp : c.pos = some p)
-    (hg : c.gen ≠ t.gen) (hf : findNode p.id t.root = none) (_hz : mergeZeroesRight = true := by decide) :
+    (hg : c.gen ≠ t.gen) (hf : findNode p.id t.root = none) :
     lostAt cmp t c = true := by
   have hg' : ¬ ((c.gen : Int) = (t.gen : Int)) := by omega
   simp [lostAt, hp, hf, lost, hg']
@@ -103,7 +117,7 @@ theorem iter_refines_resume (cmp : K → K → Int) (hs : StrictWeak cmp) (sts :
 /-- the empty tree without iterators is related to the empty map -/
 theorem sim_init (cmp : K → K → Int) :
     Sim cmp (⟨Tree.empty, fun _ => none⟩ : MSt K V) ⟨[], fun _ => none⟩ :=
-  ⟨inv_empty cmp, by simp [Tree.empty], fun _ => rfl, fun _ _ h => by cases h⟩
+  ⟨inv_empty cmp, by simp [Tree.empty], fun _ => rfl⟩
 
 /-- non-vacuity: from the empty tree every script is covered. -/
 example (cmp : K → K → Int) (hs : StrictWeak cmp) (sts : List (Step K V)) :
@@ -112,8 +126,10 @@ example (cmp : K → K → Int) (hs : StrictWeak cmp) (sts : List (Step K V)) :
   obtain ⟨m', os, h1, _, h3⟩ := iter_refines_resume cmp hs sts _ _ (sim_init cmp)
   exact ⟨m', os, h1, h3⟩
 
-/-- "it never panics or spins": the model's `Next` is a total function without a panic outcome, and on every
-reachable state (simulation relation) no step of any script dereferences a nil pointer. -/
+/-- "it never panics or spins": on every reachable state (simulation relation) no step of any script dereferences a
+nil pointer — neither a `Put`/`Delete` (`crash` outcomes of `ins`/`del`) nor a `Next` (`iterNextPanics`: the `lost()`
+call at its top on a cursor with `curr == nil`, see `next_off_edge_never_derefs_nil`) —, and every `Next` is a
+terminating function. -/
 theorem iter_total (cmp : K → K → Int) (hs : StrictWeak cmp) (sts : List (Step K V))
     (m : MSt K V) (s : SSt K V) (h : Sim cmp m s) : (mrun cmp m sts).isSome = true := by
   obtain ⟨m', os, h1, _, _⟩ := sim_run hs sts m s h
